@@ -41,7 +41,7 @@ def check_seq(spec, evs, upto=None):
         weak = weak or (w > 0 and inexact_nodes(spec, r))
         before = h.toJson() if not (w > 0) else None
         try:
-            h.fill(r, w)
+            h.fill(A.fresh(r), w)
         except Exception as e:
             out.append(core.v_exc(PROP, "fill-seq", "fill raised on a valid datum", e, args, {"step": i}))
             return out, None
